@@ -14,7 +14,7 @@ import sys
 import time
 
 ROOT = os.path.dirname(os.path.dirname(os.path.abspath(__file__)))
-REPO = "/repo"
+REPO = os.environ.get("VERIF_REPO", "/repo")     # a snapshot when run through `vp run --with-repo`
 ENV = dict(os.environ, CARGO_NET_OFFLINE="true")
 
 
@@ -60,7 +60,7 @@ def run(sid, props):
     meta = json.load(open(os.path.join(d, "meta.json")))
     props = props or [meta["property"]]
     rc, out = sh("git -C %s status --porcelain --untracked-files=no" % REPO)
-    assert out.strip() == "", "/repo has uncommitted changes"
+    assert out.strip() == "", "%s has uncommitted changes" % REPO
     rc, out = sh("git -C %s apply %s" % (REPO, os.path.join(d, "patch.diff")))
     assert rc == 0, out
     results = {}
